@@ -12,10 +12,10 @@ PROOFS = {
             'ArgumentList.to_cpp', 'ArgumentList.__len__', 'ReturnType.is_void', 'Method.to_cpp', 'StaticMethod.to_cpp',
             'InstantiatedMethod.to_cpp', 'InstantiatedStaticMethod.to_cpp', 'InstantiatedGlobalFunction.to_cpp',
             'GlobalFunction.to_cpp', 'PybindWrapper._wrap_serialization', 'PybindWrapper.wrap_ctors'],
-    'C09': ['Typename.to_cpp', 'Typename.__repr__', 'Typename.qualified_name', 'Type.to_cpp', 'TemplatedType.to_cpp',
+    'C09': ['collect_namespaces', 'Typename.to_cpp', 'Typename.__repr__', 'Typename.qualified_name', 'Type.to_cpp', 'TemplatedType.to_cpp',
             'PybindWrapper._py_args_names', 'PybindWrapper._method_args_signature', 'PybindWrapper._add_namespaces',
             'PybindWrapper.wrap_variable'],
-    'C08': ['Typename.instantiated_name', 'instantiate_name', 'InstantiatedMethod.to_cpp', 'InstantiatedStaticMethod.to_cpp',
+    'C08': ['collect_namespaces', 'Namespace.top_level', 'Typename.instantiated_name', 'instantiate_name', 'InstantiatedMethod.to_cpp', 'InstantiatedStaticMethod.to_cpp',
             'InstantiatedGlobalFunction.to_cpp', 'InstantiatedConstructor.to_cpp', 'Typename.__init__', 'Class.namespaces',
             'ForwardDeclaration.namespaces', 'InstantiatedClass.cpp_typename', 'InstantiatedClass.to_cpp',
             'InstantiatedDeclaration.to_cpp',
